@@ -14,8 +14,12 @@ from vlib.symx import fork_int
 
 YIELD, RAISE, RETURN, SUB, TRYFIN, TRYEXC, END, TRANS, CATCHRET = range(9)
 NOPS = 7  # TRANS is only used where a harness lists it explicitly
-SEND, THROW, STOP, CLOSE, SENDNONE = range(5)
+SEND, THROW, STOP, CLOSE, SENDNONE, THROWBASE = range(6)
 NACT = 4  # SENDNONE only when drive(..., nact=5)
+
+
+class BaseBoom(BaseException):
+    """What the driver throws to model KeyboardInterrupt / CancelledError: a BaseException that is not an Exception."""
 
 
 class Boom(Exception):
@@ -101,7 +105,7 @@ def exc_key(e):
     return (type(e).__name__, tuple(e.args))
 
 
-def drive(gen, script, vals, max_steps=None, nact=NACT):
+def drive(gen, script, vals, max_steps=None, nact=NACT, alphabet=None):
     """Run ``gen`` under the scripted driver.  Returns the trace (list)."""
     from bluesky.utils import RequestStop
 
@@ -117,7 +121,7 @@ def drive(gen, script, vals, max_steps=None, nact=NACT):
     S = len(script) if max_steps is None else max_steps
     for j in range(S):
         trace.append(("msg", msg_key(m)))
-        a = fork_int(script[j], 0, nact - 1)
+        a = fork_int(script[j], 0, nact - 1) if alphabet is None else alphabet[fork_int(script[j], 0, len(alphabet) - 1)]
         try:
             if a == SEND:
                 m = gen.send(vals[j])
@@ -129,6 +133,9 @@ def drive(gen, script, vals, max_steps=None, nact=NACT):
                 m = gen.throw(RequestStop())
             elif a == SENDNONE:
                 m = gen.send(None)
+            elif a == THROWBASE:
+                trace.append(("throw-base", j))
+                m = gen.throw(BaseBoom("driver", j))
             else:
                 trace.append(("close", j))
                 gen.close()
@@ -139,6 +146,9 @@ def drive(gen, script, vals, max_steps=None, nact=NACT):
             return trace
         except Exception as e:  # noqa
             trace.append(("raised", exc_key(e)))
+            return trace
+        except BaseBoom as e:
+            trace.append(("raised-base", exc_key(e)))
             return trace
     trace.append(("msg", msg_key(m)))
     trace.append(("script-end-close",))
